@@ -209,7 +209,7 @@ ADDED = {
     'C10': 'Injected I/O answers during the overlay copy (n-th copy fails) and for the patch program (cannot start); the following run without fault must prepare the subproject completely. Part (d): two wraps of one configuration naming the same archive file, which matches only the first wrap\'s hash. History part: the decision table again after the build directory was first configured under another (wrap_mode, force_fallback_for). Round 12: the already-configured-subproject cells specified from the candidate order (no longer skipped) and split by how the subproject was configured (subproject() / fallback of another lookup) and named (fallback: / wrap provide). Round 13: lookups with 2 (thorough 3) names - every name absent / on the system (low or high version) / provided by the wrap / overridden - x constraint x subproject version x required x allow_fallback x wrap_mode x force_fallback_for, each followed by an optional lookup of every single name (same dependency); 4 spellings of the name (capitals, punctuation) x {wrap provide, fallback: [s, var], fallback: \'s\'}.',
     'C11': 'install_emptydir with sticky / setuid modes; an explicit install_mode without owner write bit; source versions 0.3 s apart. Rounds 8-9: family A, installs that cannot complete (4 kinds of obstacle at every entry of the reference model): the log names what the stopped run created, uninstall restores the previous tree, a repaired re-install equals a clean install. Rounds 10-11: family G (6 rule kinds without explicit tag x ~270 destinations x every documented tag), L (install_subdir over a link to a directory), N (9 shapes of the subdir name x strip_directory x excludes), Y (install_data of a symlink source), D (install_dir with ..). Round 14: family M - an emptydir rule with a declared mode sharing its directory with every other rule kind (destination, ancestor, tree top; both orders) from three DESTDIR pre-states (absent, declared directories pre-existing with default mode, tree of an earlier revision without install_mode); a declared directory mode is required also of pre-existing and shared directories.',
     'C12': '--slice over every subset of 8 tests, 3 of them non-parallel; fractional --timeout-multiplier values. Rounds 8-9: family M, 255..257 (thorough ..512) bad results in one run through --repeat; the exit status is judged as the one byte the parent process sees. Round 12: selection by name - a build with non-unique test names, all argument sequences <= 2 (thorough 3) over 48 documented spellings through the real selection and 32 through the real command line; family R, the rust protocol under every exit status. Round 14: tests without a limit (timeout: <= 0 in the build definition; --timeout-multiplier <= 0) as configurations of the schedule exploration.',
-    'C13': 'An absolute library path through append_direct/extend_direct, alone and in two-element batches with every other argument; bare options with a separate operand (-isystem DIR, -D FOO). Rounds 8-9: two-object histories (10 binary operations whose operand is another argument-list object in every state, followed by one more operation) and sequence-protocol reads (reversed, indexing, slices) with pending queues. Rounds 10-11: the argument-list class (C-like, base, D) as a dimension of every part, kinds read from the class tables. Round 12: the name shape of a library file as a dimension (6 locations x 11 names incl. versioned shared libraries) and equality reads on pairs of histories.',
+    'C13': 'An absolute library path through append_direct/extend_direct, alone and in two-element batches with every other argument; bare options with a separate operand (-isystem DIR, -D FOO). Rounds 8-9: two-object histories (10 binary operations whose operand is another argument-list object in every state, followed by one more operation) and sequence-protocol reads (reversed, indexing, slices) with pending queues. Rounds 10-11: the argument-list class (C-like, base, D) as a dimension of every part, kinds read from the class tables. Round 12: the name shape of a library file as a dimension (6 locations x 11 names incl. versioned shared libraries) and equality reads on pairs of histories. Round 14: tail part - the value of an override option ends like a library file (6 tails) in variant alphabets of the C-like and D classes, explicit-state search to depth 3.',
     'C14': '30 fragments (non-ASCII names, #cmakedefine with a ${} tail); the file slice renders each data set over the output of the previous one, and in three more encodings. Rounds 8-9: form feed and U+2028 as fragments (characters str.splitlines() breaks at). Rounds 10-11: nested cmake references (names built from ${..} / @..@) specified from CMake\'s documentation, names family; directive spellings (blanks around # and the keyword) compared on (kind, name, value); reference calibrated against the installed cmake. Round 12: the value-names family (sequences <= 4 over 11 fragments x 45 data sets whose values name bound, unbound and self names), words that merely begin with a directive, and hang detection by CPU time with confirmation.',
     'C15': 'The same comparisons after setup --reconfigure (twice); an install project with every installable kind x 8 spellings of the install directory; yielding options given their own value; files read through fs / keyval before and after a subproject, compared with the REGENERATE_BUILD dependencies. Rounds 8-9: intro-tests/benchmarks depends (and programs in the build directory) against what meson-test-prereq / meson-benchmark-prereq build; every target kind with build_subdir: at root / in a subdir under both layouts; optional subprojects that fail (error, missing dependency, in a subdir, syntax error) in the reads family. Rounds 10-11: configured sources, LLVM IR sources, custom targets consuming files / whole targets / indexed outputs: the sources introspection lists against the inputs of the statements. Round 12: unity builds are no longer exempt from the sources comparison; a unity family (1 / 4 / 5 / 9 sources, two languages, a generated source; unity_size default and 2; per-subproject unity; flat layout). Round 13: an install-names project - every install function with every documented keyword that changes the name under which a file is installed (install_man locale:, rename:, preserve_path:, strip_directory:, name_prefix / name_suffix / version / soversion, per-output install_dir). Round 14: a plan entry of an installed subdirectory must locate every file of the source directory at <destination>/<relative path>.',
     'C16': 'indent_by = \'\'; end_of_line taken from .editorconfig in the CLI part; several files in one invocation (list and --recursive). Rounds 8-9: @, quote, backslash and newline in 7 spellings (literal, one-letter, octal, x, u, U, N{}) x 4 string kinds with bodies <= 3, the same literals in 6 contexts, 274 characters in comments, continuation before the end of the file. Rounds 10-11: options part - every documented formatter option as a dimension of a family whose inputs can trigger it, with a counter of cases where the option changes the output.',
